@@ -360,6 +360,17 @@ def routing(rc):
         if not got:
             rc.fail(f2, f2.node, f"{q} no longer answers through {sorted(need)}", construct="route")
 
+    # pruning for inference must keep latent nodes on active trails (they are summed out, not cut off)
+    pr = repo.func("pgmpy/inference/base.py", "Inference._prune_bayesian_model")
+    for c in calls_named(pr, "active_trail_nodes"):
+        il = kwarg(c, "include_latents") or (c.args[2] if len(c.args) > 2 else None)
+        rc.ob(f"_prune_bayesian_model -> {norm(c, 100)}")
+        if not (isinstance(il, ast.Constant) and il.value is True):
+            rc.fail(pr, c, "network pruning must ask for active trails INCLUDING latent nodes; otherwise a latent between query and evidence is pruned as if d-separated")
+        ob = kwarg(c, "observed") or (c.args[1] if len(c.args) > 1 else None)
+        if ob is None or "evidence" not in norm(ob):
+            rc.fail(pr, c, "network pruning must condition the active trails on the evidence variables")
+
     # get_independencies: passes include_latents and the observed tuple, subtracts the active set from the rest
     gi = repo.func(DAG, "DAG.get_independencies")
     for c in calls_named(gi, "active_trail_nodes"):
@@ -576,4 +587,115 @@ MUTANTS = [
     dict(kind="twin", name="latents-else-swapped", file=DAG,
          old="            if include_latents:\n                active_trails[start] = active_nodes\n            else:\n                active_trails[start] = active_nodes - self.latents",
          new="            if not include_latents:\n                active_trails[start] = active_nodes - self.latents\n            else:\n                active_trails[start] = active_nodes"),
+]
+
+
+# ------------------------------------------------------------------------------------------------
+@rule("C08.perstart", "Bayes-ball state (worklist, visited set, active set) is initialised afresh for every start variable", floor=3)
+def perstart(rc):
+    fi = rc.repo.func(DAG, "DAG.active_trail_nodes")
+    fn = fi.node
+    loops = [n for n in walk_no_nested(fn) if isinstance(n, ast.While)]
+    if len(loops) != 1:
+        raise AnalysisError("active_trail_nodes: expected one worklist loop")
+    wl = loops[0]
+    outer = getattr(wl, "_parent", None)
+    if not isinstance(outer, ast.For):
+        raise AnalysisError("active_trail_nodes: the worklist loop is not nested in the loop over start variables")
+    # sets mutated inside the worklist loop
+    used = set()
+    for n in ast.walk(wl):
+        if isinstance(n, ast.Call) and isinstance(n.func, ast.Attribute) and n.func.attr in ("add", "pop", "update", "append") and isinstance(n.func.value, ast.Name):
+            used.add(n.func.value.id)
+    for name in sorted(used):
+        inits = [n for n in walk_no_nested(fn) if isinstance(n, ast.Assign) and dotted(n.targets[0]) == name]
+        inside = [n for n in inits if any(p is outer for p in _parents(n)) and not any(p is wl for p in _parents(n))]
+        rc.ob(f"per-start state `{name}`: {len(inits)} initialisation(s), {len(inside)} inside the per-start loop")
+        if not inside:
+            rc.fail(fi, inits[0] if inits else fn, f"`{name}` is part of the traversal state but is not re-initialised for each start variable: "
+                    f"with several start variables the second traversal is cut short by what the first one visited", construct=f"per-start init of {name}")
+
+
+@rule("C08.separator", "minimal_dseparator: latent parents replaced to a fixed point, d-separation verified, every member tested for removal before returning", floor=4)
+def separator(rc):
+    fi = rc.repo.func(DAG, "DAG.minimal_dseparator")
+    fn = fi.node
+    start, end = fi.params[1], fi.params[2]
+    # adjacency rejected
+    rs = [s for s in sites(fn, lambda n: isinstance(n, ast.Raise))]
+    rc.ob(f"adjacent endpoints rejected: {bool(rs)}")
+    if not rs:
+        rc.fail(fi, fn, "adjacent start/end must be rejected (no separator exists)", construct="adjacent check")
+    # initial separator: parents of both endpoints
+    seps = [n for n in walk_no_nested(fn) if isinstance(n, ast.Assign) and isinstance(n.targets[0], ast.Name) and "predecessors" in norm(n.value, 400)
+            and start in norm(n.value, 400) and end in norm(n.value, 400)]
+    if not seps:
+        raise AnalysisError("minimal_dseparator: initial separator (parents of both endpoints) not found")
+    sep = seps[0].targets[0].id
+    rc.ob(f"initial separator `{sep}` = {norm(seps[0].value, 100)}")
+    # latent replacement to a fixed point
+    wl = [n for n in walk_no_nested(fn) if isinstance(n, ast.While) and "latents" in norm(n.test) and sep in norm(n.test)]
+    ok_fix = False
+    for w in wl:
+        body = norm(w, 3000)
+        if "predecessors(" in body and ("remove(" in body or "discard(" in body or " - " in body):
+            ok_fix = True
+    rc.ob(f"latent members replaced by their parents until none is left: {ok_fix}")
+    if not ok_fix:
+        rc.fail(fi, fn, "latent members of the separator must be replaced by their parents repeatedly, until no latent remains (a latent's parent may be latent too)",
+                construct="latent replacement fixpoint")
+    # endpoints removed
+    if not any(call_name(c) in ("difference_update", "discard") or (isinstance(getattr(c, '_parent', None), ast.Assign)) for c in calls_named(fi, "difference_update", "discard")):
+        rc.fail(fi, fn, "start and end must never be members of the separator", construct="endpoints removed")
+    # verification: if still d-connected return None
+    none_ret = [s for s in sites(fn, lambda n: isinstance(n, ast.Return) and isinstance(n.value, ast.Constant) and n.value.value is None)]
+    ok_ver = any(any(isinstance(t, ast.Call) and call_name(t) == "is_dconnected" and pol for t, pol in s.conds) for s in none_ret)
+    rc.ob(f"unseparable pair answered with None after an is_dconnected test: {ok_ver}")
+    if not ok_ver:
+        rc.fail(fi, fn, "if the candidate set does not d-separate the endpoints the answer must be None", construct="verification")
+    # reduction loop
+    red = None
+    for n in walk_no_nested(fn):
+        if isinstance(n, ast.For) and dotted(n.iter) == sep or (isinstance(n, ast.For) and isinstance(n.iter, ast.Call) and n.iter.args and dotted(n.iter.args[0]) == sep):
+            txt = norm(n, 2000)
+            if "is_dconnected" in txt and ("remove(" in txt or "discard(" in txt):
+                red = n
+    if red is None:
+        rc.fail(fi, fn, "every member of the separator must be tested for removal (minimality)", construct="reduction loop")
+        return
+    rem = [c for c in ast.walk(red) if isinstance(c, ast.Call) and call_name(c) in ("remove", "discard")]
+    result = dotted(rem[0].func.value)
+    rc.ob(f"reduction loop over `{sep}` shrinking `{result}`")
+    test_ok = False
+    for s in sites(fn, lambda n: n in rem):
+        for t, pol in s.conds:
+            if isinstance(t, ast.UnaryOp) and isinstance(t.op, ast.Not) and isinstance(t.operand, ast.Call) and call_name(t.operand) == "is_dconnected" and pol:
+                ob = kwarg(t.operand, "observed") or (t.operand.args[2] if len(t.operand.args) > 2 else None)
+                if ob is not None and isinstance(ob, ast.BinOp) and isinstance(ob.op, ast.Sub) and dotted(ob.left) == result:
+                    test_ok = True
+    if not test_ok:
+        rc.fail(fi, red, "a member may be dropped only if the remaining set (current result minus that member) still d-separates the endpoints", construct="reduction test")
+    # every non-None return returns the reduced set and comes after the loop
+    for r in returns_of(fi):
+        if isinstance(r.value, ast.Constant) and r.value.value is None:
+            continue
+        after = r.lineno > red.end_lineno
+        rc.ob(f"return {norm(r.value)} (after the reduction loop: {after})")
+        if dotted(r.value) != result or not after:
+            rc.fail(fi, r, "a separator is returned without having been reduced to a minimal one", construct=f"unreduced return {norm(r.value)}")
+
+
+MUTANTS += [
+    dict(kind="break", name="visited-shared-across-starts", file=DAG, expect="C08.perstart",
+         old="        active_trails = {}\n        for start in variables if isinstance(variables, list) else [variables]:\n            visit_list = set()\n            visit_list.add((start, \"up\"))\n            traversed_list = set()\n",
+         new="        active_trails = {}\n        traversed_list = set()\n        for start in variables if isinstance(variables, list) else [variables]:\n            visit_list = set()\n            visit_list.add((start, \"up\"))\n"),
+    dict(kind="break", name="separator-early-return", file=DAG, expect="C08.separator",
+         old="        minimal_separator = separator.copy()\n", new="        if len(separator) <= 1:\n            return separator\n        minimal_separator = separator.copy()\n"),
+    dict(kind="break", name="separator-latents-single-pass", file=DAG, expect="C08.separator",
+         old="        while len(separator.intersection(self.latents)) != 0:\n            separator_copy = separator.copy()\n            for u in separator:\n                if u in self.latents:\n                    separator_copy.remove(u)\n                    separator_copy.update(set(self.predecessors(u)))\n            separator = separator_copy\n",
+         new="        for u in separator.intersection(self.latents):\n            separator.remove(u)\n            separator.update(self.predecessors(u))\n"),
+    dict(kind="break", name="separator-no-verification", file=DAG, expect="C08.separator",
+         old="        if an_graph.is_dconnected(start, end, observed=separator):\n            return None\n", new=""),
+    dict(kind="break", name="prune-excludes-latents", file="pgmpy/inference/base.py", expect="C08.routing",
+         old="variables=variables, observed=list(evidence.keys()), include_latents=True", new="variables=variables, observed=list(evidence.keys())"),
 ]
